@@ -20,6 +20,8 @@ CONSTANTS
   ValidCounts, \* TRUE: the response carries valid-count measures for its numeric measure
   SumNaN,    \* TRUE: the server reports the sum of a cell without values as missing
              \* (FALSE: as 0, the usual case)
+  Population, \* target population argument (NA = not given)
+  Filter,    \* filter statistics of the response, see Derived!Fraction
   SimMode    \* TRUE under `tlc -simulate`: one random respondent per step
 
 (***************************************************************************)
@@ -41,6 +43,7 @@ CONSTANTS
 (***************************************************************************)
 
 NA == -99            \* "no value" for numeric answers and numeric values
+NoPopulation == NA
 SEL == 1  OTH == 2  MIS == 3   \* positions on the MR selection axis
 
 VARIABLE data
